@@ -309,3 +309,40 @@ class LoopContracts:
             text = text[:pos] + "\n" + c + "\n" + text[pos:]
         report.append({"where": where, "rule": self.pat, "fires": len(ins), "expected": str(len(ins)), "note": self.note})
         return text
+
+
+class IIFE:
+    """Immediately-invoked lambda `[&] { ... return e; ... }()` -> GNU statement expression.
+
+    ({ T lam_k; { ...  { lam_k = e; goto lam_end_k; } ... } lam_end_k: ; lam_k; })
+    `types` gives the result type of each lambda in text order; the number of
+    lambdas found must equal len(types)."""
+
+    def __init__(self, types, note="immediately-invoked lambda -> GNU statement expression"):
+        self.types = types
+        self.note = note
+        self.pat = "iife[%d]" % len(types)
+
+    def apply(self, text, report, where):
+        n = 0
+        while True:
+            m = re.search(r"\[&\]\s*\{", text)
+            if not m:
+                break
+            if n >= len(self.types):
+                raise ExtractionDrift("more immediately-invoked lambdas than declared in " + where)
+            b = m.end() - 1
+            e = match_close(text, b)
+            tail = re.match(r"\s*\(\s*\)", text[e + 1 :])
+            if not tail:
+                raise ExtractionDrift("lambda is not immediately invoked in " + where)
+            body = text[b + 1 : e]
+            # return e;  ->  { lam = e; goto end; }
+            body = re.sub(r"\breturn\s+([^;]*);", lambda mm: "{ lam_%d = %s; goto lam_end_%d; }" % (n, mm.group(1), n), body)
+            rep = "({ %s lam_%d; {%s} lam_end_%d: ; lam_%d; })" % (self.types[n], n, body, n, n)
+            text = text[: m.start()] + rep + text[e + 1 + tail.end() :]
+            n += 1
+        if n != len(self.types):
+            raise ExtractionDrift("%d immediately-invoked lambdas found in %s, %d declared" % (n, where, len(self.types)))
+        report.append({"where": where, "rule": self.pat, "fires": n, "expected": str(n), "note": self.note})
+        return text
